@@ -20,6 +20,7 @@ package xa
 import (
 	"context"
 	"database/sql/driver"
+	"encoding/hex"
 	"errors"
 	"fmt"
 	"io"
@@ -33,18 +34,30 @@ type MysqlXAConn struct {
 	driver.Conn
 }
 
+// xidLiteral renders the branch identifier "<xid>-<branchId>" as MySQL's two-part xid
+// gtrid = xid, bqual = "-<branchId>" (64 bytes each), in hexadecimal notation: no byte of
+// the xid can end the literal.
+func xidLiteral(xid string) string {
+	gtrid, bqual := xid, ""
+	if i := strings.LastIndex(xid, "-"); i >= 0 {
+		gtrid, bqual = xid[:i], xid[i:]
+	}
+	return "X'" + hex.EncodeToString([]byte(gtrid)) + "',X'" + hex.EncodeToString([]byte(bqual)) + "'"
+}
+
 func NewMysqlXaConn(conn driver.Conn) *MysqlXAConn {
 	return &MysqlXAConn{Conn: conn}
 }
 
 func (c *MysqlXAConn) Commit(ctx context.Context, xid string, onePhase bool) error {
 	log.Infof("xa branch commit, xid %s", xid)
+	if xid == "" {
+		return errors.New("xa branch commit: empty xid")
+	}
 
 	var sb strings.Builder
 	sb.WriteString("XA COMMIT ")
-	sb.WriteString("'")
-	sb.WriteString(xid)
-	sb.WriteString("'")
+	sb.WriteString(xidLiteral(xid))
 	if onePhase {
 		sb.WriteString(" ONE PHASE")
 	}
@@ -59,12 +72,13 @@ func (c *MysqlXAConn) Commit(ctx context.Context, xid string, onePhase bool) err
 
 func (c *MysqlXAConn) End(ctx context.Context, xid string, flags int) error {
 	log.Infof("xa branch end, xid %s", xid)
+	if xid == "" {
+		return errors.New("xa branch end: empty xid")
+	}
 
 	var sb strings.Builder
 	sb.WriteString("XA END ")
-	sb.WriteString("'")
-	sb.WriteString(xid)
-	sb.WriteString("'")
+	sb.WriteString(xidLiteral(xid))
 
 	switch flags {
 	case TMSuccess:
@@ -104,12 +118,13 @@ func (c *MysqlXAConn) IsSameRM(ctx context.Context, xares XAResource) bool {
 
 func (c *MysqlXAConn) XAPrepare(ctx context.Context, xid string) error {
 	log.Infof("xa branch prepare, xid %s", xid)
+	if xid == "" {
+		return errors.New("xa branch prepare: empty xid")
+	}
 
 	var sb strings.Builder
 	sb.WriteString("XA PREPARE ")
-	sb.WriteString("'")
-	sb.WriteString(xid)
-	sb.WriteString("'")
+	sb.WriteString(xidLiteral(xid))
 
 	conn, _ := c.Conn.(driver.ExecerContext)
 	_, err := conn.ExecContext(ctx, sb.String(), nil)
@@ -161,12 +176,13 @@ func (c *MysqlXAConn) Recover(ctx context.Context, flag int) (xids []string, err
 
 func (c *MysqlXAConn) Rollback(ctx context.Context, xid string) error {
 	log.Infof("xa branch rollback, xid %s", xid)
+	if xid == "" {
+		return errors.New("xa branch rollback: empty xid")
+	}
 
 	var sb strings.Builder
 	sb.WriteString("XA ROLLBACK ")
-	sb.WriteString("'")
-	sb.WriteString(xid)
-	sb.WriteString("'")
+	sb.WriteString(xidLiteral(xid))
 
 	conn, _ := c.Conn.(driver.ExecerContext)
 	_, err := conn.ExecContext(ctx, sb.String(), nil)
@@ -182,12 +198,13 @@ func (c *MysqlXAConn) SetTransactionTimeout(duration time.Duration) bool {
 
 func (c *MysqlXAConn) Start(ctx context.Context, xid string, flags int) error {
 	log.Infof("xa branch start, xid %s", xid)
+	if xid == "" {
+		return errors.New("xa branch start: empty xid")
+	}
 
 	var sb strings.Builder
 	sb.WriteString("XA START ")
-	sb.WriteString("'")
-	sb.WriteString(xid)
-	sb.WriteString("'")
+	sb.WriteString(xidLiteral(xid))
 
 	switch flags {
 	case TMJoin:
